@@ -1073,7 +1073,7 @@ def rdnetwork_from_dict(d, parent_units_system = UnitsSystem(), base_path=None):
                                                    parent_units_system = parent_units_system)    
 
     da["species"]   = [species_from_dict (s, da["units_system"]) for s in d["species"]]
-    da["reactions"] = [reaction_from_dict(r, da["units_system"]) for r in d["reactions"]]
+    da["reactions"] = [reaction_from_dict(r, da["units_system"]) for r in d.get("reactions", [])]
 
     rn = RDNetwork(**da)
     
